@@ -164,7 +164,7 @@ def scale_jobs(quick, seed):
 def _worker(args):
     tc, seed, idx, n = args
     ev = Ev()
-    strat = st.tuples(P.programs(P.Profile(alloc_heavy=True, abnormal=False, features=["func", "closure", "gener", "record", "array", "list", "bigz", "string", "loop", "recursion", "union"])),
+    strat = st.tuples(P.programs(P.Profile(alloc_heavy=True, abnormal=False, features=["func", "closure", "gener", "record", "array", "list", "bigz", "string", "loop", "recursion", "union", "libops", "tmpl"])),
                       st.sampled_from(["c", "c", "c", "interp"]), st.sampled_from(KS), st.integers(0, 1000), st.integers(331, 1000))
 
     def evaluate(case, ev):
